@@ -1,28 +1,7 @@
 # C12 = part A (checks/c12a.py: ShrinkingMap, RandomMap, heaps, Queue, RingBuffer, Stack) + part B (checks/c12b.py:
 # BytesFilter, Walker, TimeHeap, IndexedStorage, OnChangeMap, SubscriptionManager), merged.
-import importlib.util, os
-_d = os.path.dirname(os.path.abspath(__file__))
-
-
-def _load(n):
-    s = importlib.util.spec_from_file_location(n, os.path.join(_d, n + ".py"))
-    m = importlib.util.module_from_spec(s)
-    s.loader.exec_module(m)
-    return m.SPEC
-
-
-_a, _b = _load("c12a"), _load("c12b")
-SPEC = {
-    "lean_props": [_a["lean_props"], _b["lean_props"]],
-    "lean_namespace": [_a["lean_namespace"], _b["lean_namespace"]],
-    "parts": [{"driver": _a["driver"], "harness": _a["harness"]}, {"driver": _b["driver"], "harness": _b["harness"]}],
-    "theorems": _a["theorems"] + _b["theorems"],
-    "trusted_base": _a["trusted_base"] + _b["trusted_base"],
-    "modelled": _a["modelled"] + _b["modelled"],
-    "assumptions": _a.get("assumptions", []) + _b.get("assumptions", []),
-    "manifest": {
-        "text": _a["manifest"]["text"] + " || " + _b["manifest"]["text"],
-        "note": _a["manifest"]["note"] + " " + _b["manifest"].get("note", ""),
-        "technique": "Lean 4 refinement / invariant proofs by induction over operation histories + differential correspondence (two harness/driver pairs)",
-    },
-}
+import os, sys
+sys.path.insert(0, os.path.dirname(os.path.dirname(os.path.abspath(__file__))))
+import checklib
+SPEC = checklib.merge_specs([checklib.load_dev_spec(n) for n in ("c12a", "c12b")],
+                            technique="Lean 4 refinement / invariant proofs by induction over operation histories + differential correspondence (two harness/driver pairs)")
